@@ -11,6 +11,30 @@ def claim(pid, text, note, technique='Lean 4 theorems about a hand-written execu
 from manifest_table import fill
 fill(claim, NA)
 
+# additions of the later seeding rounds (one sentence each, appended to the tie description)
+HIST = (" Call histories: each function of the family is also evaluated with one argument changed at a time after an earlier call and once more unchanged, and every "
+		"such call is compared with the same call alone in a fresh interpreter (core.history_check) - the answer is a function of the arguments of the call.")
+EXTRA = {
+	'C09': HIST + " Arguments outside the integration range and shifted/scaled SciPy families are compared with elementary values / quadrature.",
+	'C10': HIST + " The continuous newsvendor is compared with the defining expectation (independent quadrature) at S* and at other levels, one corpus case per shifted/scaled family.",
+	'C12': HIST + " myopic_bounds: scalar, length-T and length-(T+1) forms (stray 0th element) of one instance agree.",
+	'C13': HIST + " Large Poisson means (up to 800) against the custom-pmf entry point and the stationary cost.",
+	'C14': HIST + " EIL approximation: reported cost = equation (5.16) of the returned pair; low-mean corpus for the exact algorithm.",
+	'C11': " Call histories: one instance solved again with exactly one argument changed, every call compared with the model.",
+	'C04': " Echelon base-stock nodes are also exercised in distribution systems (several downstream-most nodes).",
+	'C06': " The order-follows-policy predicate, the release of withheld units after a shipment pause and order-pipeline conservation are part of the predicates evaluated on every real trajectory.",
+	'C03': " On every edge into a TP/RP node the edge-flow identity (nothing lost while a pause delays a shipment) is evaluated.",
+	'C08': " External inbound times at inner stages; a pre-processed tree edited before solving equals the edited instance built afresh.",
+	'C15': " One-object workflow: analysis with network=, conversion, installation by index (and Policy objects moved from a simulated pilot system), simulation - identical to the same levels on a fresh copy.",
+	'C16': " Distributions handed out earlier are re-queried after later requests.",
+	'C17': " Simulated networks are saved through every exit of save_instance (incl. the documented no-ops) and their state variables compared.",
+	'C18': " Serial systems stored in four construction orders for the level conversions.",
+	'C20': " Non-scalar defaults of the node normalisers; random nested dicts for the key rewriters (reference implementations, no sharing with the argument).",
+}
+for pid_, extra_ in EXTRA.items():
+	if pid_ in CHECKS:
+		CHECKS[pid_]['text'] = CHECKS[pid_]['text'].rstrip() + extra_
+
 ids = [json.loads(l)['id'] for l in open(os.path.join(VERIF, 'properties.jsonl'))]
 checks = []
 for pid in ids:
